@@ -267,6 +267,30 @@ def constraint_after_rename_sequences():
               'attrs': [['db_column', '"b_col"']]}, uq('a', 'b')]]
 
 
+def tofield_spec():
+    """Beta.r refers to Alpha through a non-key column (to_field), which is unique"""
+    spec = optrig.start_spec()
+    alpha, beta = spec['apps'][0]['models'][0], spec['apps'][0]['models'][1]
+    for f in alpha['fields']:
+        if f['name'] == 'a':
+            f['attrs'] = {'unique': True}
+    for f in beta['fields']:
+        if f['name'] == 'r':
+            f['attrs'] = dict(f['attrs'], to_field='a')
+    return spec
+
+
+def referenced_column_sequences():
+    """the reference to a column goes away (the referring field or model is deleted), then the column is renamed in
+    place: what the rename costs must not depend on a reference that an earlier mutation of the run removed"""
+    rn = lambda old, new: {'t': 'RenameField', 'model': 'Alpha', 'old': old, 'new': new, 'db_column': None, 'db_table': None}
+    return [[{'t': 'DeleteField', 'model': 'Beta', 'field': 'r'}, rn('a', 'aa')],
+            [{'t': 'DeleteModel', 'model': 'Beta'}, rn('a', 'aa')],
+            [{'t': 'DeleteField', 'model': 'Beta', 'field': 'r'},
+             {'t': 'ChangeField', 'model': 'Alpha', 'field': 'a', 'ftype': None, 'initial': None,
+              'attrs': [['db_column', '"a_col"']]}]]
+
+
 def restated_meta_sequences():
     """the same Meta value stated by two evolutions of one batch (each carries the full list): the second statement
     changes nothing and must cost nothing, with or without another mutation in between"""
@@ -316,7 +340,7 @@ def run(ctx):
     ir3 = list(optrig.valid_sequences(sig, ira, 3))
     ctx.rng.shuffle(ir3)
     ir += ir3[:50 if quick else 2000]
-    work = [(unique_spec(), q) for q in unique_rename_sequences()] + [(constraint_spec(), q) for q in constraint_sequences()] + [(together_spec(), q) for q in constraint_after_rename_sequences()] + [(spec, q) for q in restated_meta_sequences()] + \
+    work = [(unique_spec(), q) for q in unique_rename_sequences()] + [(constraint_spec(), q) for q in constraint_sequences()] + [(together_spec(), q) for q in constraint_after_rename_sequences()] + [(tofield_spec(), q) for q in referenced_column_sequences()] + [(spec, q) for q in restated_meta_sequences()] + \
         [(spec, q) for q in meta_sequences() + reuse_sequences() + rebuild_then_meta_sequences() + rename_after_rebuild_sequences()] + [(spec2, q) for q in rel] + [(spec, q) for q in ir] + \
         [(spec, q) for q in seqs]
     merge_witness = None
